@@ -598,6 +598,11 @@ class PPG3204():
         """
         CHs = self._check_channels(CHs)
         
+        if start_addrs < 1 or start_addrs > self.MAX_MEMORY_LEN: # the same range as in get_data
+            msg = f'`start_addrs` must been between 1 and {self.MAX_MEMORY_LEN}. Setting to the nearest value.'
+            warnings.warn(msg)
+            start_addrs = int(np.clip(start_addrs, 1, self.MAX_MEMORY_LEN))
+
         if not isinstance(data, (str,) + Array_Like):
             raise ValueError('`data` is not in the correct format')
         
